@@ -49,6 +49,28 @@ def counter_incs(b):
     return out
 
 
+def _zip_range_start(b):
+    """Start constant of the `s..` range that is zipped with something in body b (None if there is no such zip, or more
+    than one start value)."""
+    starts = set()
+    for bl in b["blocks"]:
+        t = bl["t"]
+        if t["k"] == "call" and t.get("fn", "").split("::")[-1] == "zip" and t["args"] and "p" in t["args"][0]:
+            l0 = t["args"][0]["p"]["l"]
+            for bl2 in b["blocks"]:
+                for st in bl2["s"]:
+                    if st["k"] == "assign" and st["lhs"]["l"] == l0 and not st["lhs"].get("pr"):
+                        rv = st["rv"]
+                        if rv["k"] == "agg" and "RangeFrom" in str(rv.get("adt", "")) and rv.get("ops") and "i" in rv["ops"][0]:
+                            starts.add(rv["ops"][0]["i"])
+                        elif rv["k"] == "use" and "promoted" in rv.get("op", {}):
+                            pv = b.get("promoted") or []
+                            i = rv["op"]["promoted"]
+                            if i < len(pv) and pv[i] and "i" in pv[i][0]:
+                                starts.add(pv[i][0]["i"])
+    return next(iter(starts)) if len(starts) == 1 else None
+
+
 def _num_expr(b, l, depth=0):
     """Symbolic value of an integer-ish local: ("local", x, k) = value of local x plus k, ("enum", bi, k) = index yielded by
     the Enumerate::next call in block bi plus k, or None. Follows copies, references, derefs, to_string/deref calls,
@@ -72,6 +94,11 @@ def _num_expr(b, l, depth=0):
             return _num_expr(b, x["args"][0]["p"]["l"], depth + 1)
         if "Enumerate" in nm and nm.endswith("::next"):
             return ("enumnext", bi, 0)
+        if "Zip" in nm and nm.endswith("::next"):
+            # (s..).zip(list): component 0 of the item is s + position
+            s0 = _zip_range_start(b)
+            if s0 is not None:
+                return ("enumnext", bi, s0)
         return ("local", l, 0)
     rv = x
     if rv["k"] == "ref":
@@ -85,7 +112,7 @@ def _num_expr(b, l, depth=0):
         # projections: (Option<(usize, T)> as Some).0.0 of an Enumerate::next result is the index; (T, bool).0 of a checked add
         fields = [e.get("f") for e in prs if isinstance(e, dict) and "f" in e]
         if inner and inner[0] == "enumnext":
-            return ("enum", inner[1], 0) if fields[-1:] == ["0"] and len(fields) >= 2 else ("local", l, 0)
+            return ("enum", inner[1], inner[2]) if fields[-1:] == ["0"] and len(fields) >= 2 else ("local", l, 0)
         if inner and inner[0] == "tuple_enum":
             return ("enum", inner[1], 0) if fields == ["0"] else ("local", l, 0)
         if inner and inner[0] == "checked" and fields == ["0"]:
@@ -111,6 +138,13 @@ def rule_positions(chk, fb):
     if not b:
         chk.ob(rp, "anchor", False, detail="package writer make_buffer not found")
         return
+    positional(chk, fb, rp, d, lambda at: any(a[0] == "call" and a[1].endswith("get_sheet_collection_no_check") for a in at), "loop", what="sheet")
+
+
+def positional(chk, fb, rp, d, is_source, key, what="item"):
+    """Every number handed to a crate function inside a loop over the selected source is 1 + the number of elements
+    before the current one."""
+    b = fb.mir[d]
     chk.touch(d)
     fl = Flow(fb, b)
     cfg = CFG(b)
@@ -122,7 +156,7 @@ def rule_positions(chk, fb):
     # loops over the sheet list, outermost first
     sheet_loops = []
     for h, (body, tails) in sorted(loops.items()):
-        nx = [(bi, t) for bi, t in fl.calls() if bi in body and t.get("fn", "").endswith("::next") and any(a[0] == "call" and a[1].endswith("get_sheet_collection_no_check") for a in fl.atoms(t["args"][0]))]
+        nx = [(bi, t) for bi, t in fl.calls() if bi in body and t.get("fn", "").endswith("::next") and is_source(fl.atoms(t["args"][0]))]
         if nx and not any(h in loops[h2][0] and h2 != h and any(bi in loops[h2][0] for bi, _ in nx) and len(loops[h2][0]) > len(body) and False for h2 in loops):
             # the loop whose own header drives that iterator: the next() call is in the smallest such loop
             if all(len(body) <= len(loops[h2][0]) for h2 in loops if all(bi in loops[h2][0] for bi, _ in nx)):
@@ -147,7 +181,7 @@ def rule_positions(chk, fb):
                     if e[1] not in [x for x, _ in nx] and not any(bb in body for bb in [e[1]]):
                         continue
                     ok = e[2] == 1
-                    chk.ob(rp, "loop#%d:%s:arg%d" % (li, callee, ai), ok, where="%s:%s" % (b["file"], t["ln"]), detail="sheet number = enumeration index + %d" % e[2])
+                    chk.ob(rp, "%s#%d:%s:arg%d" % (key, li, callee, ai), ok, where="%s:%s" % (b["file"], t["ln"]), detail="%s number = enumeration index + %d" % (what, e[2]))
                     n_use += 1
                     continue
                 x, off = e[1], e[2]
@@ -177,10 +211,10 @@ def rule_positions(chk, fb):
                 after = bi2 not in cfg.reachable(ib, avoid=[h])
                 val = None if init is None or not (before or after) else init + (1 if before else 0) + off
                 ok = val == 1 and not bypass
-                chk.ob(rp, "loop#%d:%s:arg%d" % (li, callee, ai), ok, where="%s:%s" % (b["file"], t["ln"]),
-                       detail="counter `%s`: initial value %s, increment %s the use, offset %d: the first sheet is numbered %s; %s" % (
-                           name, init, "before" if before else ("after" if after else "neither always before nor always after"), off, val,
-                           "some path through the loop body skips the increment (sheets after a skipped one get the wrong number)" if bypass else "incremented on every path through the loop body"))
+                chk.ob(rp, "%s#%d:%s:arg%d" % (key, li, callee, ai), ok, where="%s:%s" % (b["file"], t["ln"]),
+                       detail="counter `%s`: initial value %s, increment %s the use, offset %d: the first %s is numbered %s; %s" % (
+                           name, init, "before" if before else ("after" if after else "neither always before nor always after"), off, what, val,
+                           "some path through the loop body skips the increment (%ss after a skipped one get the wrong number)" % what if bypass else "incremented on every path through the loop body"))
                 n_use += 1
 
 
@@ -345,6 +379,24 @@ def run(chk, fb, tier):
     raw_getters = {d for d, b in fb.mir.items() if b.get("self_ty") == SP and b["kind"] == "AssocFn" and "work_sheet_collection" in direct_fields(b, SP) and WS in fb.ty(b["locals"][0]["t"]) and d not in mat_all
                    and not any(t.get("fn") == mat or t.get("fn", "").endswith("is_deserialized") for bd in _with_closures(fb, d) for _, t in fb.calls_in(fb.mir[bd]))}
     chk.note("accessors that hand out possibly-raw sheets: %s" % sorted(x.split("::")[-1] for x in raw_getters))
+    # what is handed out by &mut can be edited by the caller: a sheet that is still raw would take the edit into its model
+    # while the writer copies its original XML - the edit is lost
+    rh = chk.rule(
+        "C11.a.handout",
+        "mutable sheets are handed out loaded: every public method of the workbook that returns `&mut Worksheet` taken from the sheet list materialises (that sheet or all sheets) first - unless the sheet is the one it has just appended",
+        floor=3,
+    )
+    for d, b in sorted(fb.mir.items()):
+        if b.get("self_ty") != SP or b["kind"] != "AssocFn" or b.get("vis") != "pub" or not ("&mut " in fb.ty(b["locals"][0]["t"]) and WS in fb.ty(b["locals"][0]["t"])):
+            continue
+        if "work_sheet_collection" not in direct_fields(b, SP) and not any(t.get("fn") in raw_getters for _, t in fb.calls_in(b)):
+            # built on other accessors: those are inspected themselves
+            if not any(fb.mir.get(t.get("fn", ""), {}).get("self_ty") == SP for _, t in fb.calls_in(b)):
+                continue
+        appends = any(t.get("fn", "").split("::")[-1] in ("push", "insert") and "ThinVec" in t.get("fn", "") for _, t in fb.calls_in(b)) or any(t.get("fn", "").split("::")[-1] in ("add_sheet", "add_new_sheet_crate", "new_sheet") for _, t in fb.calls_in(b))
+        loaded = d not in raw_getters and (d in mat_all or any(t.get("fn") == mat or t.get("fn") in mat_all or (fb.mir.get(t.get("fn", ""), {}).get("self_ty") == SP and "&mut " in fb.ty(fb.mir[t["fn"]]["locals"][0]["t"]) and WS in fb.ty(fb.mir[t["fn"]]["locals"][0]["t"]) and t["fn"] not in raw_getters) for bd in _with_closures(fb, d) for _, t in fb.calls_in(fb.mir[bd])))
+        chk.touch(d)
+        chk.ob(rh, d.split("::")[-1], loaded or appends, where=fb.loc(d), detail="returns &mut Worksheet; materialises first (itself or through the accessor it delegates to): %s; returns the sheet it has just appended: %s" % (loaded, appends))
     for d, b in sorted(fb.mir.items()):
         if b["kind"] == "Closure" and not d.startswith("structs::spreadsheet") and not d.startswith("writer::"):
             continue
